@@ -8,20 +8,23 @@ Driver ops for C10.
   `b` = a line on which it raises something else.  Runs `fitMany` (record = line index + "predicted
   fluxes present"), serialises the frames with a toy codec and reads them back with `readAll`.
   Answer: `error <e>` | `empty` | `file <n_hdr_frames> <k> {idx flux}*k read <k'> {idx flux}*k'`.
-* `history mode nobj {nrows best}* ncalls {call}*` — caller heap `0..nobj-1`, object `i` has rows
-  `0..nrows-1` and best chi² `best`; `mode` = `copy` | `alias`;
-  call = `<op> <arg> <input>` with op ∈ `wp wr ex pl` (arg = `nobj k_0 … k_{nobj-1}`: keep the first
-  `k_i` rows of source `i`) or `fo` (arg = chi threshold), input = `file k i_1 … i_k` (a file
-  holding the records of these objects) | `obj i` | `list k i_1 … i_k`.
+* `history mode nobj {nrows best bestpd}* ncalls {call}*` — two-level caller heap: objects `0..nobj-1`,
+  object `i` points at the cells `4i..4i+3` (rows `0..nrows-1`, source, best chi², best chi² per data
+  point); `mode` = `copy` | `alias`;
+  call = `<op> <arg> <input>` with op ∈ `wp wr ex pl p1 p2` (arg = `nobj k_0 … k_{nobj-1}`: keep the
+  first `k_i` rows of source `i`), `fo chi`, `fc cpd`, `fb chi cpd` (filter_output), or the negative
+  control `ip <sel> fld p` (keep, then write in place through attribute `fld`);
+  input = `file k i_1 … i_k` (a file holding the records of these objects) | `obj i` | `list k i_1 … i_k`.
   Answer: per call `p n {src k rows*}*` | `s ng {src k rows*}* nb {src k rows*}*` | `x <err>`, then
-  `heap nobj {k rows*}*` (what the caller's references lead to afterwards; `-1` for a lost one).
+  `heap nobj {k rows*}*` (what the caller's references lead to afterwards; `-1` for a lost one), then
+  `cells 0|1 objs 0|1` (1 = every caller cell / object binding is what it was).
 -/
 namespace Drv
 open SF.Hist
 
 def errName : Err → String
   | .eof => "eof" | .badLine => "badLine" | .metaMismatch => "metaMismatch" | .truncated => "truncated"
-  | .fuel => "fuel" | .badRef => "badRef" | .noFits => "noFits"
+  | .fuel => "fuel" | .badRef => "badRef" | .noFits => "noFits" | .badState => "badState" | .badValue => "badValue"
 
 /-- a data line as the driver sees it -/
 inductive LineTok
@@ -91,11 +94,12 @@ def opRecords : Rd String := do
       pure s!"file {nh} {showRecs recs} read {showRecs rs}"
 
 abbrev HRec := CRec Rat
-abbrev HOp := Op (Nat → Nat) Rat
-abbrev HIn := Input HRec
+abbrev HX := CX Rat
+abbrev HOp := Op (Nat → Nat) (Option Rat × Option Rat) Nat
+abbrev HIn := Input HX
 
-def readObj : Rd (Nat × Rat) := do
-  let n ← nat; let b ← rat; pure (n, b)
+def readObj : Rd (Nat × Rat × Rat) := do
+  let n ← nat; let b ← rat; let c ← rat; pure (n, b, c)
 
 def readInput (objs : List HRec) : Rd HIn := do
   let t ← tok
@@ -103,7 +107,7 @@ def readInput (objs : List HRec) : Rd HIn := do
   | "file" => do
       let l ← listOf nat
       if l.any (fun i => i ≥ objs.length) then throw "bad-file-index" else
-      pure (.file (l.filterMap (fun i => objs[i]?)))
+      pure (.file (l.filterMap (fun i => (objs[i]?).map CRec.toV)))
   | "obj" => do let i ← nat; pure (.obj i)
   | "list" => do let l ← listOf nat; pure (.list l)
   | _ => throw s!"bad-input:{t}"
@@ -120,21 +124,36 @@ def readCall (nobj : Nat) (objs : List HRec) : Rd (HOp × HIn) := do
     | "wr" => do let s ← readSel nobj; pure (Op.writeRanges s)
     | "ex" => do let s ← readSel nobj; pure (Op.extract s)
     | "pl" => do let s ← readSel nobj; pure (Op.plot s)
-    | "fo" => do let q ← rat; pure (Op.filterOutput q)
+    | "p1" => do let s ← readSel nobj; pure (Op.plotParams1d s)
+    | "p2" => do let s ← readSel nobj; pure (Op.plotParams2d s)
+    | "fo" => do let q ← rat; pure (Op.filterOutput (some q, none))
+    | "fc" => do let q ← rat; pure (Op.filterOutput (none, some q))
+    | "fb" => do let q ← rat; let c ← rat; pure (Op.filterOutput (some q, some c))
+    | "ip" => do let s ← readSel nobj; let f ← nat; let k ← nat; pure (Op.inplace s f k)
     | _ => throw s!"bad-op:{t}"
   let inp ← readInput objs
   pure (op, inp)
 
 def showRows (k : List Nat) : String := " ".intercalate (toString k.length :: k.map toString)
 
-def showViews (vs : List (Nat × List Nat)) : String :=
-  " ".intercalate (toString vs.length :: vs.map (fun v => s!"{v.1} {showRows v.2}"))
+def showViews (vs : List (Option (Nat × List Nat))) : String :=
+  " ".intercalate (toString vs.length :: vs.map (fun v => match v with
+    | some v => s!"{v.1} {showRows v.2}"
+    | none => "malformed"))
 
-def showOut : Except Err (Out (Nat × List Nat) HRec) → String
+def showOut : Except Err (Out (Option (Nat × List Nat)) (RecV HX)) → String
   | .error e => s!"x {errName e}"
   | .ok (.printed vs) => s!"p {showViews vs}"
   | .ok (.split g b) =>
-    s!"s {showViews (g.map (fun r => (r.src, r.rows)))} {showViews (b.map (fun r => (r.src, r.rows)))}"
+    let f := fun (r : RecV HX) => (CRec.ofV r).map (fun c => (c.src, c.rows))
+    s!"s {showViews (g.map f)} {showViews (b.map f)}"
+
+/-- the caller's store: object `i` has the attribute cells `4i … 4i+3` -/
+def mkStore (objs : List HRec) : Store HX :=
+  { objs := objs.map (fun r => (r.src, [⟨4 * r.src, some r.rows.length⟩, ⟨4 * r.src + 1, none⟩,
+                                        ⟨4 * r.src + 2, none⟩, ⟨4 * r.src + 3, none⟩])),
+    cells := objs.flatMap (fun r => [(4 * r.src, r.rows.map CX.row), (4 * r.src + 1, [CX.src r.src]),
+                                     (4 * r.src + 2, [CX.best r.best]), (4 * r.src + 3, [CX.bestpd r.bestpd])]) }
 
 def opHistory : Rd String := do
   let m ← tok
@@ -144,16 +163,20 @@ def opHistory : Rd String := do
     | _ => throw s!"bad-mode:{m}"
   let objs0 ← listOf readObj
   let nobj := objs0.length
-  let objs : List HRec := (List.range nobj).zip objs0 |>.map (fun p => ⟨p.1, List.range p.2.1, p.2.2⟩)
-  let heap : Heap HRec := objs.map (fun r => (r.src, r))
+  let objs : List HRec := (List.range nobj).zip objs0 |>.map (fun p => ⟨p.1, List.range p.2.1, p.2.2.1, p.2.2.2⟩)
+  let st0 := mkStore objs
   let nc ← nat
   let calls ← listN (readCall nobj objs) nc
-  let r := run (csem (K := Rat)) mode heap calls
+  let r := run (csem (K := Rat)) mode st0 calls
   let outs := r.2.map showOut
-  let fin := (List.range nobj).map (fun i => match lookupRef i r.1 with
+  let fin := (List.range nobj).map (fun i => match (deref r.1 i).bind CRec.ofV with
     | none => "-1"
     | some v => showRows v.rows)
-  pure (" ".intercalate (outs ++ ["heap", toString nobj] ++ fin))
+  -- every cell (array / source / meta) the caller can reach holds what it held
+  let cellsSame := (List.range (4 * nobj)).all (fun a => lookupRef a r.1.cells == lookupRef a st0.cells)
+  let objsSame := (List.range nobj).all (fun i => lookupRef i r.1.objs == lookupRef i st0.objs)
+  pure (" ".intercalate (outs ++ ["heap", toString nobj] ++ fin ++
+    ["cells", if cellsSame then "1" else "0", "objs", if objsSame then "1" else "0"]))
 
 def handleC10 (op : String) : Option (Rd String) :=
   match op with
